@@ -22,8 +22,8 @@ from translators import planrules
 from vlib import common, coqrun, proof, parse_cache, logica_run as lr
 
 PID = 'C18'
-VARS = ['a', 'b', 'c']
-NAMES = ['x', 'y', 'z']
+VARS = ['a', 'b', 'c', 'g', 'h', 'k']
+NAMES = ['x', 'y', 'z', 'u', 'v', 'w']
 STRS = ['a', 'b', 'B', 'ab', 'ba', '', 'c d']
 PSHAPES = ['copy', 'filter', 'union', 'agg', 'aggunion']
 CONSUMERS = ['final', 'map', 'group', 'join', 'chain', 'twice']
@@ -223,6 +223,9 @@ def sub_bag(small, big):
 # ----------------------------------------------------------------------------- generator
 def gen_case(r, k_mode='all'):
   n = r.choice([2, 2, 3])
+  wide = r.random() < 0.12      # many sort keys with stand-alone "DESC" markers: ten and more @OrderBy items
+  if wide:
+    n = r.choice([5, 6])
   with_str = r.random() < 0.3
   nrows = r.choice([1, 2, 3, 3, 4, 4, 5])
 
@@ -254,6 +257,9 @@ def gen_case(r, k_mode='all'):
     r.shuffle(cols)
     m = r.randint(1, n)
     keys = [[c, r.random() < 0.5, r.choice(['inline', 'inline', 'sep', 'asc'])] for c in cols[:m]]
+    if wide:
+      m = n
+      keys = [[c, i % 2 == 0 or r.random() < 0.5, 'sep'] for i, c in enumerate(cols)]
     case['keys'] = keys
     case['k'] = None
     if not is_total(keys, p_rows(case)):      # make the order total on the rows at hand
